@@ -13,6 +13,8 @@ import dataclasses
 import types
 from typing import Any, Callable, Iterable, List, Tuple
 
+from . import introspect
+
 PKG = "hippolyzer."
 _ATOMS = (int, float, str, bytes, bool, complex, bytearray)
 
@@ -89,6 +91,14 @@ def walk(roots: Iterable[Tuple[str, Any]], want: Callable[[Any], bool]) -> List[
                 o._ensure_evaled()
             except Exception:
                 pass
+        elif any(c.__name__ == "ForwardSerializable" for c in cls.__mro__):
+            # the forcing method was renamed: call the stored thunk ourselves and walk what it returns
+            introspect.note_fallback("ForwardSerializable._ensure_evaled")
+            for i, f in enumerate(introspect.zero_arg_functions(o)):
+                try:
+                    push((f"{path}<thunk {i}>()", f()))
+                except Exception:
+                    pass
         d = None
         try:
             d = object.__getattribute__(o, "__dict__")
